@@ -270,27 +270,11 @@ func runC06(c *Ctx, prop string) {
 		// format(): each item rendered key ":" value, joined by " "
 		if ff := p.Method("file", "tagItems", "format"); ff != nil {
 			c.Funcs[fnName(ff)] = true
-			okFmt, okJoin := false, false
-			for _, b := range ff.Blocks {
-				for _, ins := range b.Instrs {
-					call, ok := ins.(*ssa.Call)
-					if !ok || calleeName(&call.Call) != "builtin.append" {
-						continue
-					}
-					el := elemOfVariadic(call.Call.Args[1])
-					if el == nil {
-						continue
-					}
-					parts := renderParts(el)
-					if len(parts) == 3 && strings.HasSuffix(parts[0], ".key") && parts[1] == "const::" && strings.HasSuffix(parts[2], ".value") {
-						okFmt = true
-					}
-				}
-			}
-			for _, call := range callsIn(ff, "strings.Join") {
-				if s, _ := constString(call.Call.Args[1]); s == " " {
-					okJoin = true
-				}
+			m := renderLoopModel(p, ff)
+			okFmt := m.Why == "" && len(m.First) == 3 && strings.HasSuffix(m.First[0], ".key") && m.First[1] == "const::" && strings.HasSuffix(m.First[2], ".value")
+			okJoin := okFmt && len(m.Later) == 4 && m.Later[0] == "const: " && strings.Join(m.Later[1:], "|") == strings.Join(m.First, "|")
+			if m.Why != "" {
+				bad = append(bad, "format(): "+m.Why)
 			}
 			if !okFmt || !okJoin {
 				bad = append(bad, "format() does not render key:value pairs joined by one space")
